@@ -1,0 +1,57 @@
+//go:build verif
+
+// Verification hooks (build tag "verif"): read-only views of unexported state
+// and save/restore of the global profile register, used by the model-checking
+// harness in /verif. Not compiled without the tag.
+
+package psatoken
+
+import "sort"
+
+// VerifRegistryNames returns the sorted names under which profiles are registered.
+func VerifRegistryNames() []string {
+	names := make([]string, 0, len(profilesRegister))
+	for k := range profilesRegister {
+		names = append(names, k)
+	}
+	sort.Strings(names)
+	return names
+}
+
+// VerifRegistryEntry returns the entry registered under name.
+func VerifRegistryEntry(name string) (IProfile, string, bool) {
+	e, ok := profilesRegister[name]
+	return e.Profile, e.JSONTag, ok
+}
+
+// VerifRegistrySave returns a copy of the register.
+func VerifRegistrySave() interface{} {
+	cp := make(map[string]profileEntry, len(profilesRegister))
+	for k, v := range profilesRegister {
+		cp[k] = v
+	}
+	return cp
+}
+
+// VerifRegistryRestore replaces the content of the register with a copy
+// obtained from VerifRegistrySave.
+func VerifRegistryRestore(saved interface{}) {
+	cp := saved.(map[string]profileEntry)
+	for k := range profilesRegister {
+		delete(profilesRegister, k)
+	}
+	for k, v := range cp {
+		profilesRegister[k] = v
+	}
+}
+
+// VerifMessage exposes the envelope held by the Evidence: whether there is
+// one, the raw protected header, the algorithm-bearing flag, the payload and
+// the signature.
+func (e *Evidence) VerifMessage() (present bool, rawProtected, payload, signature []byte, protectedLen, unprotectedLen int) {
+	if e.message == nil {
+		return false, nil, nil, nil, 0, 0
+	}
+	return true, e.message.Headers.RawProtected, e.message.Payload, e.message.Signature,
+		len(e.message.Headers.Protected), len(e.message.Headers.Unprotected)
+}
